@@ -12,3 +12,72 @@ contract("C09.strip_value_placeholder", file=D, func="DefinitionDict._strip_valu
 # (A contract for DefinitionDict._validate_placeholders - "exactly one '#' on a value-taking tag iff the name ends in '/#'" -
 #  was attempted: its filtered-list counting invariant is not decided by z3/cvc5 within budget; the acceptance rules are
 #  therefore left to the bounded workload rt/c09.py and are NOT claimed as proved.)
+
+DV = "hed/validator/def_validator.py"
+class_model("DefEntry", {})
+class_model("DefValidator", {"defs": "Map[Str,DefEntry]"})
+contract("C09.get_definition", file="hed/models/definition_entry.py", func="DefinitionEntry.get_definition",
+         params={"self": "DefEntry", "replace_tag": "HedTag", "placeholder_value": "Str", "return_copy_of_tag": "Bool"},
+         returns="Opt[HedGroup]", enc="native", trusted=True, self_class="DefEntry",
+         ensures={"named": "result == expansion_of(self, replace_tag, placeholder_value)"},
+         assume=["DefinitionEntry.get_definition is a deterministic function of the entry, the tag and the value (its copy semantics "
+                 "and placeholder substitution are exercised by the bounded workload)"])
+contract("C09.group_sorted", file="hed/models/hed_group.py", func="HedGroup.sorted",
+         params={"self": "HedGroup"}, returns="HedGroup", enc="native", trusted=True,
+         ensures={"named": "result is canon_of(self)"},
+         assume=["HedGroup.sorted() returns the canonical (recursively sorted) copy: canonical-form correctness is C04 / bounded"])
+contract("C09.report_missing_or_invalid_value", file=DV, func="DefValidator._report_missing_or_invalid_value",
+         params={"def_tag": "HedTag", "def_entry": "DefEntry", "is_def_expand_tag": "Bool"}, returns="List[Issue]", enc="native", trusted=True,
+         ensures={"one": "len(result) == 1 and result[0].severity == 1"})
+
+# C09: "validation accepts a Def-expand group exactly when its content equals that expansion up to sibling order"
+contract("C09.validate_def_contents", file=DV, func="DefValidator._validate_def_contents",
+         params={"self": "DefValidator", "def_tag": "HedTag", "def_expand_group": "HedGroup", "hed_validator": "Opaque"},
+         returns="List[Issue]", enc="native",
+         lets={"label": "def_tag.extension.partition('/')[0].casefold()", "value": "def_tag.extension.partition('/')[2]",
+               "is_expand": "not struct_equal(def_expand_group, def_tag)"},
+         ensures={
+             "C09.defexpand.accepted_iff_equal_up_to_sibling_order":
+                 "implies(label in self.defs and expansion_of(self.defs[label], def_tag, value) is not None and is_expand,"
+                 " (len(result) == 0) == struct_equal(canon_of(def_expand_group), canon_of(expansion_of(self.defs[label], def_tag, value))))",
+             "C09.defexpand.altered_content_code": "implies(label in self.defs and expansion_of(self.defs[label], def_tag, value) is not None and is_expand,"
+                 " all_in(result, lambda x: x.code == 'DEF_EXPAND_INVALID' and x.severity == 1))",
+             "C09.def.undeclared_name_reported": "implies(label not in self.defs, len(result) == 1 and result[0].severity == 1 and"
+                                                 " result[0].code == ('DEF_EXPAND_INVALID' if is_expand else 'DEF_INVALID'))",
+             "C09.def.plain_def_with_valid_value_is_silent": "implies(label in self.defs and expansion_of(self.defs[label], def_tag, value) is not None"
+                                                             " and not is_expand, len(result) == 0)",
+         })
+
+# C09 "under arbitrary interleavings of expand, shrink, copy and validate on the same object": a copy owns its expansion state.
+# HedTag.__deepcopy__ under an ownership contract over the raw attributes (allocation clock: fresh(x) <=> allocated by this call)
+class_model("HedTagRaw", {"_parent": "Opt[HedGroup]", "_expandable": "Opt[HedGroup]", "_expanded": "Bool", "_hed_string": "Str",
+                          "_schema": "Opaque", "_schema_entry": "Opaque", "span": "Opaque", "_tag": "Opt[Str]",
+                          "_namespace": "Str", "_extension_value": "Str"})
+contract("C09.tag_deepcopy", file="hed/models/hed_tag.py", func="HedTag.__deepcopy__",
+         params={"self": "HedTagRaw", "memo": "Map[Int,HedTagRaw]"}, returns="HedTagRaw", enc="native",
+         modifies=["memo"],
+         ensures={
+             "C09.copy.is_a_new_object": "implies(id(self) not in old(memo), fresh(result) and result is not self)",
+             "C09.copy.memoised": "implies(id(self) in old(memo), result is old(memo)[id(self)])",
+             "C09.copy.expansion_content_not_shared": "implies(id(self) not in old(memo) and self._expandable is not None"
+                                                      " and id(self._expandable) not in old(memo), fresh(result._expandable))",
+             "C09.copy.parent_not_shared": "implies(id(self) not in old(memo) and self._parent is not None"
+                                           " and id(self._parent) not in old(memo), fresh(result._parent))",
+             "C09.copy.none_stays_none": "implies(id(self) not in old(memo), (result._expandable is None) == (self._expandable is None)"
+                                         " and (result._parent is None) == (self._parent is None))",
+             "C09.copy.text_and_flag_kept": "implies(id(self) not in old(memo), result._expanded == self._expanded and"
+                                            " result._hed_string == self._hed_string and result._extension_value == self._extension_value"
+                                            " and result._namespace == self._namespace)",
+             "C09.copy.registered_in_memo": "implies(id(self) not in old(memo), id(self) in memo and memo[id(self)] is result)",
+         },
+         assume=["copy.deepcopy modelled: memo hit returns the memo entry, otherwise an object allocated by the call; class model HedTagRaw "
+                 "lists the attributes the clauses speak about (__dict__.update copies every modelled attribute)"])
+
+class_model("HedGroupRaw", {"_parent": "Opt[HedGroupRaw]"})
+contract("C09.group_copy", file="hed/models/hed_group.py", func="HedGroup.copy",
+         params={"self": "HedGroupRaw"}, returns="HedGroupRaw", enc="native", modifies=["self._parent"],
+         ensures={
+             "C09.copy.group_copy_is_new": "fresh(result) and result is not self",
+             "C09.copy.original_keeps_its_parent": "self._parent == old(self._parent)",
+         },
+         assume=["copy.deepcopy modelled as an allocation (the copied content is exercised by the bounded workload)"])
